@@ -17,7 +17,9 @@ CONSTANTS Pairs,        \* listener pairings, e.g. "h1h1", "h1h2", "h2h1", "h2h2
           BodyLens,     \* request body lengths (for methods with a body)
           HdrKinds,     \* kinds of header sets attached: "plain","mixedcase","empty","multi","long"
           Statuses, RespBodyLens,
-          Defects       \* {} intended; {"UnescapePath"}: the target is rebuilt from the unescaped path
+          Retries,      \* 0 = the first attempt is answered; 1 = the first attempt is answered 503 and the route retries
+          Defects       \* {} intended; {"UnescapePath"}: the target is rebuilt from the unescaped path;
+                        \* {"DrainBodyOnSend"}: sending an attempt consumes the buffered body, a retry re-sends what is left
 
 VARIABLES req, seen, phase
 vars == <<req, seen, phase>>
@@ -33,19 +35,23 @@ Rebuilt(p, q) == IF "UnescapePath" \in Defects THEN Target([i \in DOMAIN p |-> U
 
 DefPath == <<"a">>
 (* star design: the URI space is swept completely with a GET; methods / bodies / header kinds / responses are swept on a plain URI *)
-Init == /\ phase = "send" /\ seen = [uri |-> "", method |-> ""]
-        /\ \E pr \in Pairs, p \in Paths, q \in Queries, m \in Methods, b \in BodyLens, h \in HdrKinds, st \in Statuses, rb \in RespBodyLens :
-             /\ \/ (m = "GET" /\ b = 0 /\ h = "plain" /\ st = 200 /\ rb = 5)
-                \/ (p = DefPath /\ q = "-")
+Init == /\ phase = "send" /\ seen = <<>>
+        /\ \E pr \in Pairs, p \in Paths, q \in Queries, m \in Methods, b \in BodyLens, h \in HdrKinds, st \in Statuses, rb \in RespBodyLens, rt \in Retries :
+             /\ \/ (m = "GET" /\ b = 0 /\ h = "plain" /\ st = 200 /\ rb = 5 /\ rt = 0)
+                \/ (p = DefPath /\ q = "-" /\ (rt = 0 \/ (h = "plain" /\ rb = 5)))
              /\ (m \in {"GET", "HEAD", "DELETE"} => b = 0)
-             /\ req = [pair |-> pr, path |-> p, query |-> q, uri |-> Target(p, q), method |-> m, body |-> b, hdr |-> h, status |-> st, rbody |-> rb]
+             /\ req = [pair |-> pr, path |-> p, query |-> q, uri |-> Target(p, q), method |-> m, body |-> b, hdr |-> h, status |-> st, rbody |-> rb, retry |-> rt]
 
-Forward == /\ phase = "send" /\ phase' = "seen"
-           /\ seen' = [uri |-> Rebuilt(req.path, req.query), method |-> req.method]
+(* one upstream attempt: the request as the upstream sees it *)
+Forward == /\ phase = "send" /\ Len(seen) <= req.retry
+           /\ seen' = Append(seen, [uri |-> Rebuilt(req.path, req.query), method |-> req.method,
+                                     body |-> IF "DrainBodyOnSend" \in Defects /\ seen # <<>> THEN 0 ELSE req.body])
+           /\ phase' = IF Len(seen') > req.retry THEN "seen" ELSE "send"
            /\ UNCHANGED req
 Next == Forward
 Spec == Init /\ [][Next]_vars
 
-UriPreserved == phase = "seen" => seen.uri = req.uri /\ seen.method = req.method
-EmitCase == phase = "send" => PrintT(<<"CASE", ToJson(req)>>)
+UriPreserved == \A i \in DOMAIN seen : seen[i].uri = req.uri /\ seen[i].method = req.method
+BodyPreserved == \A i \in DOMAIN seen : seen[i].body = req.body
+EmitCase == (phase = "send" /\ seen = <<>>) => PrintT(<<"CASE", ToJson(req)>>)
 ====
